@@ -45,6 +45,22 @@ def crc24(data):
     return rem & 0xFFFFFF
 
 
+def _short(first4, addr=0):
+    body = bytes.fromhex(first4)
+    return (body + (crc24(body) ^ addr).to_bytes(3, "big")).hex()
+
+
+# not every reception is a 14-byte DF17 buffer: 7-byte replies (DF11 all-call, DF4 altitude reply with the
+# address overlaid on the parity) arrive as 7 bytes from Beast feeds and as 14-byte buffers (message + 7
+# zero bytes) from the rtlsdr source (ModeSMessage.msg is [u8; 14]); the decoder reads the length from the
+# DF field, so all of them are decodable receptions.  They replace five of the DF17 frames of the pool.
+GOOD[2] = _short("5d4b1a2c") + "00" * 7
+GOOD[11] = _short("5d3c6589")
+GOOD[12] = _short("20000d38", 0x4B1A2C)
+GOOD[13] = _short("20000d38", 0x3C6589) + "00" * 7
+GOOD[14] = _short("28001b98", 0x4840D6)
+
+
 def frame_hex(idx):
     if idx >= BAD_BASE:
         j = idx - BAD_BASE
@@ -694,7 +710,9 @@ def check(run):
 
         rp = process(run, special, procs, stats, "special",
                      meanwhile=[special_tool, special_caps, special_bursts, special_multi])
-        if bp["arrivals_closing_ge_3cap_groups"] < 10:
+        # measured on what the code emitted: if that recording was itself rejected (a change that loses
+        # groups), the count says nothing about the scenarios and the rejection is what gets reported
+        if bp["arrivals_closing_ge_3cap_groups"] < 10 and not run.violations and not run.known:
             raise core.ToolError("back-pressure scenarios lost their teeth: no arrival closes >= 3*cap groups")
         samples.append({"tag": special[0]["tag"], "w_ms": special[0]["w"], "epoch_s": special[0]["epoch"],
                         "first_arrivals[frame,tick_1/8ms,receiver]": [list(a) for a in special[0]["arr"][:8]],
@@ -788,7 +806,7 @@ def check(run):
         "checked to convert exactly in f64 (e.g. 1.001 s is moved to 1.001125 s)",
         "groups still open when the input channel closes are pending, not lost (the code drops them silently at close; "
         "an implementation that flushes them as complete groups is accepted as well)",
-        "frames declared decodable are DF17 frames from the repository's tests or built with the Mode S parity; undecodable "
+        "frames declared decodable are DF17 frames from the repository's tests or built with the Mode S parity, plus 7-byte DF4/5/11 replies as 7 bytes and as 14-byte buffers (rtlsdr form); undecodable "
         "ones have a flipped parity bit or are truncated; the emitted record's decoded payload is not judged here",
         "decode1090 is run unmodified, one process per history, input in the current JSONL format (metadata with serial); "
         "the old top-level 'rssi' input format is not exercised",
